@@ -128,6 +128,7 @@ pub struct Vm {
     chunks: Vec<Root<Chunk>>,
     modules: HashMap<Gc<ObjString>, Root<RefCell<ObjModule>>, BuildPassThroughHasher>,
     core_chunks: Vec<Root<Chunk>>,
+    core_globals: ObjStringValueMap,
     string_class: Option<Root<ObjClass>>,
     string_store: string_store::ObjStringStore,
     range_cache: Vec<(Root<ObjRange>, time::Instant)>,
@@ -153,6 +154,7 @@ impl Vm {
             chunks: Vec::new(),
             modules: HashMap::with_hasher(BuildPassThroughHasher::default()),
             core_chunks: Vec::new(),
+            core_globals: object::new_obj_string_value_map(),
             string_class: None,
             string_store: string_store::ObjStringStore::new(),
             range_cache: Vec::with_capacity(RANGE_CACHE_SIZE),
@@ -412,7 +414,7 @@ impl Vm {
         self.chunks = self.core_chunks.clone();
         self.modules.retain(|&k, _| k.as_str() == "main");
         self.active_module = self.module("main");
-        self.active_module.borrow_mut().attributes = object::new_obj_string_value_map();
+        self.active_module.borrow_mut().attributes = self.core_globals.clone();
         self.init_built_in_globals("main");
     }
 
@@ -1841,6 +1843,9 @@ impl Vm {
             CoreClassStore::new_with_built_ins(self, root_base_metaclass, root_object_class);
         self.core_chunks = self.chunks.clone();
         self.class_store = class_store;
+        // The globals the core library defined (Error and its subclasses, StopIter, Iter, ...): every one
+        // of them is a class kept alive by the class store.
+        self.core_globals = self.module("main").borrow().attributes.clone();
     }
 
     fn init_built_in_globals(&mut self, module_path: &str) {
